@@ -15,7 +15,8 @@ use psc_model::{
 };
 
 pub fn nested(zoo: &[Entry]) -> Vec<&Entry> {
-	zoo.iter().filter(|e| e.decode_slice.is_some() && e.encode.is_some() && e.ty.static_depth() >= 1).collect()
+	// (types without any heap container are included: they must decode at limit 0, whatever their decoder does inside)
+	zoo.iter().filter(|e| e.decode_slice.is_some() && e.encode.is_some() && e.depth.is_some()).collect()
 }
 
 fn deepest_kind(ty: &Ty) -> &'static str {
@@ -263,8 +264,8 @@ pub fn tape_checks(ctx: &Ctx) -> Vec<(&'static str, Box<CheckFn<'_>>)> {
 
 pub fn budget(name: &str) -> (u32, u32, usize) {
 	match name {
-		"values" => (40_000, 20, 2048),
-		"bytes" => (60_000, 20, 1024),
+		"values" => (120_000, 8, 2048),
+		"bytes" => (120_000, 10, 1024),
 		_ => (600, 10, 64),
 	}
 }
